@@ -44,6 +44,13 @@ def run(rep: Report, prog: Program, tier: str) -> None:
     rep.not_decided = ["classifier determinism (the final failure is classified once by the loop and once for the breaker)"]
     rep.rule("R9.1", "no path makes two breaker records (with C08: exactly one on every admitted path)")
     rep.rule("R9.2", "the record kind matches the ending: return<->success; abort/cancellation kinds<->cancel; RetryExhaustedError / other Exception<->failure; execute: ok<->success, ABORTED<->cancel, else failure")
+    record_by_outcome(rep, "R9.1", "R9.2", prog)
+    rep.floor("R9.1", 100)
+    rep.floor("R9.2", 40)
+    rest(rep, prog)
+
+
+def record_by_outcome(rep: Report, r1: str, r2: str, prog: Program) -> None:
     F = flow(prog, "stated")
     rep.analysed(*sorted(F.interp.visited_funcs))
     for q in ENTRY_POINTS:
@@ -52,11 +59,11 @@ def run(rep: Report, prog: Program, tier: str) -> None:
         for ex in F.exits[q]:
             adm, recs, flags = ex.cstate
             construct = f"{q}|{ex.how}:{ex.kind}|{adm}|{','.join(recs)}|{repr(ex.retval)[:60]}"
-            rep.instance("R9.1", construct, {"entry": q, "exit": f"{ex.how}:{ex.kind}", "records": list(recs)} if len(rep.samples) < 20 else None)
+            rep.instance(r1, construct, {"entry": q, "exit": f"{ex.how}:{ex.kind}", "records": list(recs)} if len(rep.samples) < 20 else None)
             if len(recs) > 1:
-                rep.fail("R9.1", f"{short}|exit={ex.how}:{ex.kind}|records={','.join(recs)}", f"{q}: {len(recs)} breaker records {recs} on one path ending in {ex.how} {ex.kind or ''}", where=last_where(F, ex), function=q, path=F.witness(ex))
+                rep.fail(r1, f"{short}|exit={ex.how}:{ex.kind}|records={','.join(recs)}", f"{q}: {len(recs)} breaker records {recs} on one path ending in {ex.how} {ex.kind or ''}", where=last_where(F, ex), function=q, path=F.witness(ex))
                 continue
-            rep.ok("R9.1")
+            rep.ok(r1)
             if adm != "AD" or len(recs) != 1:
                 continue
             got = recs[0]
@@ -95,14 +102,14 @@ def run(rep: Report, prog: Program, tier: str) -> None:
                         want = "cancel"
                     else:
                         want = "failure"
-            rep.instance("R9.2", construct)
+            rep.instance(r2, construct)
             if got == want:
-                rep.ok("R9.2")
+                rep.ok(r2)
             else:
-                rep.fail("R9.2", f"{short}|exit={ex.how}:{ex.kind}|recorded={got}|expected={want}", f"{q}: call ending in {ex.how} {ex.kind or ''} ({'value ' + repr(ex.retval)[:80] if ex.how == 'return' else 'raised at ' + label}) is recorded as `{got}`, expected `{want}`", where=last_where(F, ex), function=q, path=F.witness(ex))
-    rep.floor("R9.1", 100)
-    rep.floor("R9.2", 40)
+                rep.fail(r2, f"{short}|exit={ex.how}:{ex.kind}|recorded={got}|expected={want}", f"{q}: call ending in {ex.how} {ex.kind or ''} ({'value ' + repr(ex.retval)[:80] if ex.how == 'return' else 'raised at ' + label}) is recorded as `{got}`, expected `{want}`", where=last_where(F, ex), function=q, path=F.witness(ex))
 
+
+def rest(rep: Report, prog: Program) -> None:
     # failure class passed to the breaker
     rep.rule("R9.4", "failure class provenance: RetryExhaustedError -> exc.last_class or UNKNOWN; other exceptions -> classify_for_breaker(exc, self.retry) = retry.classifier when a retry exists else default_classifier; execute+retry -> outcome.last_class or UNKNOWN")
     UNKNOWN = ("enum", "ErrorClass", "UNKNOWN")
